@@ -164,9 +164,18 @@ def adj1(ctx, lib, rid="ADJ-1"):
                 t = blk.get("term")
                 if t and t["k"] == "switch":
                     o = guards.FnInfo.of(b).defs.operand(t["discr"])
-                    if o[0] == "binop" and o[1] in ("Lt", "Le", "Gt", "Ge", "Ne") and any(x[0] == "binop" and x[1].startswith("Add") and any(
-                            local.const_value(y) == 1 for y in x[2:4] if isinstance(y, tuple)) for x in local.walk(o)):
-                        ctx.violation(rid, (b.path, "adjacency comparison"), "positions are compared with %s instead of equality to first+1" % o[1], b.loc(t.get("line")))
+                    if o[0] == "binop" and o[1] in ("Eq", "Lt", "Le", "Gt", "Ge", "Ne"):
+                        ks = [local.const_value(y) for x in local.walk(o) if x[0] == "binop" and x[1].startswith("Add") for y in x[2:4]
+                              if isinstance(y, tuple) and isinstance(local.const_value(y), int) and not isinstance(local.const_value(y), bool)]
+                        if not ks:
+                            continue
+                        if o[1] != "Eq":
+                            ctx.violation(rid, (b.path, "adjacency comparison"), "positions are compared with %s instead of equality to first+1" % o[1], b.loc(t.get("line")))
+                        elif ks != [1]:
+                            ctx.violation(rid, (b.path, "adjacency comparison"), "the successor test compares with first+%s instead of first+1: members that are not consecutive "
+                                          "are joined into a range x-y, which then also matches the characters between them" % ks[0], b.loc(t.get("line")))
+                        else:
+                            ctx.ok(rid, b.path + ":successor test is second == first + 1", None, b.loc(t.get("line")))
     if found == 0:
         ctx.anchor_lost(rid, "position function (char -> usize) or adjacency predicate ((char, char) -> bool) used by the class printer")
 
